@@ -1254,6 +1254,11 @@ fn text_strategy() -> BoxedStrategy<Case> {
 impl Property for C09 {
     type Case = Case;
 
+    fn fuzz(&self) -> Option<FuzzSpec> {
+        // entropy-driven target: libFuzzer's bytes replace the generator's random numbers
+        Some(FuzzSpec { target: "gen", jobs: 8, runs: 350_000, max_len: 4096, seeds: 64 })
+    }
+
     fn id(&self) -> &'static str {
         "C09"
     }
